@@ -141,7 +141,11 @@ impl EventGen for Container {
                 &inner_text,
             ) {
                 let mut el = self.0.clone();
-                el.set_attr("text", text);
+                // White space alone (e.g. `<rect ...>\n</rect>` in pretty-printed SVG) is not
+                // a label: the element is handled as if it were written `<rect .../>`.
+                if !text.trim().is_empty() {
+                    el.set_attr("text", text);
+                }
                 if let Some((start, _end)) = self.0.event_range {
                     el.event_range = Some((start, start)); // emulate an Empty element
                 }
